@@ -787,6 +787,14 @@ def call (f : String) (args : List V) : Out :=
         | .ok m => if (V.tbl 1 m) == (V.tbl 1 (merge cs)) then .ok (.tbl 1 (merge cs)) args else .ok (.other "MIRROR-MISMATCH") args
         | _ => .ok (.other "MIRROR-UB") args)
      | none => .skip)
+  | "merge-into", (.tbl 1 t) :: colls =>
+    (match colls.mapM (fun v => match v with | .tbl _ l => some l | _ => none) with
+     | some cs =>
+       let r := cs.foldl (fun acc c => c.foldl (fun acc kv => assocPut acc kv.1 kv.2) acc) t
+       (match Boot.mergeInto t cs with
+        | .ok m => if (V.tbl 1 m) == (V.tbl 1 r) then .ok (.tbl 1 r) (setArg0 args (.tbl 1 r)) else .ok (.other "MIRROR-MISMATCH") args
+        | _ => .ok (.other "MIRROR-UB") args)
+     | none => .skip)
   | "zipcoll", [.seq _ ks, .seq _ vs] =>
     (match Boot.zipcoll ks vs with
      | .ok m => if (V.tbl 1 m) == (V.tbl 1 (zipcoll ks vs)) then .ok (.tbl 1 (zipcoll ks vs)) args else .ok (.other "MIRROR-MISMATCH") args
